@@ -117,6 +117,7 @@ func corpus() []Scenario {
 		{Kind: "basic", Beh: nb, Sched: sch("launch kill timer")},                                // C17-c
 		{Kind: "basic", Beh: Beh{SelfSig: true, ExitOnDone: -1}, Sched: sch("launch timer start exit stop stop")},             // C17-d
 		{Kind: "basic", Beh: Beh{SelfSig: true, ExitOnDone: -1}, Sched: sch("launch timer start exit stop start stop kill")}, // C17-d, child left running
+		{Kind: "basic", Beh: Beh{SelfSig: true, ExitOnDone: -1}, Sched: sch("launch timer start exit stop start stop kill exit")}, // C17-i: the blocked STOP is released after KILL
 		{Kind: "basic", Beh: Beh{Fork: true, ExitOnDone: -1}, Sched: sch("launch timer start exit stop")},                     // C17-h
 		{Kind: "basic", Beh: Beh{Fork: true, ExitOnDone: -1}, Sched: sch("launch timer start stop")},                          // group kill works
 		{Kind: "ctl", Beh: nb, Sched: sch("launch kill settle")},                                 // C17-e (dial)
@@ -368,6 +369,14 @@ func harnessMain() {
 		scs = append(corpus(), generate(o)...)
 	}
 	root := filepath.Join(buildDir(), "c17", fmt.Sprintf("run-%d", os.Getpid()))
+	// directories of crashed scenarios are kept for diagnosis: drop those of earlier runs
+	if olds, err := filepath.Glob(filepath.Join(buildDir(), "c17", "run-*")); err == nil {
+		for _, d := range olds {
+			if st, err := os.Stat(d); err == nil && time.Since(st.ModTime()) > 30*time.Minute {
+				os.RemoveAll(d)
+			}
+		}
+	}
 	os.RemoveAll(root)
 	os.MkdirAll(root, 0o755)
 	obs := make([]Observation, len(scs))
